@@ -117,7 +117,7 @@ def build(rng, *, cluster_bits: int, size: int, views: list[View], version: int 
           snapshots_meta: list[dict] | None = None, copied_random: bool = True, level: int = 6,
           tuned_frac: float = 0.3, compat: int = 0, autoclear: int = 0, incompat_extra: int = 0,
           refcount_order: int = 4, crypt_method: int = 0, compression_type: int = 0, pack_compressed: bool = True,
-          rand_info: bool = True, ext_end_marker: bool = True, snap_short_l1: bool = False):
+          rand_info: bool = True, ext_end_marker: bool = True, snap_short_l1: bool = False, corrupt_deflate: bool = False):
     """-> (SparseFile image, SparseFile|None data_file, meta). views[0] is the active image, the rest snapshots."""
     cs = 1 << cluster_bits
     spc = cs // SECTOR
@@ -151,6 +151,10 @@ def build(rng, *, cluster_bits: int, size: int, views: list[View], version: int 
             if k == "C":
                 raw = _cluster_bytes(view.layer, g, spc, rng, cs, level, tuned_frac)
                 blob = deflate_raw(raw, level)
+                if corrupt_deflate:
+                    # NOT a well-formed image: the first deflate block carries the reserved block type (for checks that are
+                    # about what a reader does when decompression fails)
+                    blob = bytes([blob[0] | 0x06]) + blob[1:]
                 if len(blob) >= cs:
                     # incompressible: a real writer stores such a cluster uncompressed
                     view.kinds[g] = "N"
